@@ -169,7 +169,7 @@ func harnessC11Step() {
 
 // C13: the forwarded advertisement keeps "wire metric = origin metric + hops so far"
 func harnessC13Forward() {
-	f, snd, _ := fNew(0, []identity.AgentID{fID(0), fID(1)})
+	f, snd, rm := fNew(0, []identity.AgentID{fID(0), fID(1)})
 	origin := fID(2)
 	m0 := verif_nondet_u16()
 	verif_assume(m0 < 1000)
@@ -184,15 +184,34 @@ func harnessC13Forward() {
 		f.sender.(*fSender).peers = []identity.AgentID{origin, fID(1)}
 	}
 	wire := m0 + uint16(len(path)-1) // invariant on the incoming message
-	f.HandleRouteAdvertise(from, origin, "", 7, []protocol.Route{fRoute(wire)}, &protocol.EncryptedData{Data: protocol.EncodePath(path)}, append([]identity.AgentID{}, path...))
+	// every kind of route: CIDR, exact and wildcard domain, forward key, agent presence
+	grp := c06Group(origin, 'c', wire, verif_nondet_u8())
+	f.HandleRouteAdvertise(from, origin, "", 7, grp, &protocol.EncryptedData{Data: protocol.EncodePath(path)}, append([]identity.AgentID{}, path...))
 	verif_reach("C13/forward")
 	verif_assert(len(snd.log) == 1, "C13/forwarded-once")
 	if len(snd.log) == 1 {
 		adv, err := protocol.DecodeRouteAdvertise(snd.log[0].f.Payload)
-		verif_assert(err == nil && len(adv.Routes) == 1, "C13/forwarded-decodes")
+		verif_assert(err == nil && len(adv.Routes) == len(grp), "C13/forwarded-decodes")
 		// the next receiver stores wire+1 and is len(adv.Path) hops from the origin
-		verif_assert(adv.Routes[0].Metric+1 == m0+uint16(len(adv.Path)), "C13/metric-not-incremented-per-hop")
+		for _, r := range adv.Routes {
+			verif_assert(r.Metric+1 == m0+uint16(len(adv.Path)), "C13/metric-not-incremented-per-hop")
+		}
 	}
+	// what this agent stored: origin metric + its own distance, in every table
+	want := m0 + uint16(len(path))
+	for _, r := range rm.Table().GetAllRoutes() {
+		verif_assert(r.Metric == want, "C13/stored-cidr-metric-is-not-origin-metric-plus-hops")
+	}
+	for _, r := range rm.DomainTable().GetAllRoutes() {
+		verif_assert(r.Metric == want, "C13/stored-domain-metric-is-not-origin-metric-plus-hops")
+	}
+	for _, r := range rm.ForwardTable().GetAllRoutes() {
+		verif_assert(r.Metric == want, "C13/stored-forward-metric-is-not-origin-metric-plus-hops")
+	}
+	for _, r := range rm.AgentTable().GetAllRoutes() {
+		verif_assert(r.Metric == want, "C13/stored-presence-metric-is-not-origin-metric-plus-hops")
+	}
+	verif_assert(rm.Table().TotalRoutes() == 1 && rm.AgentTable().Lookup(origin) != nil, "C13/group-not-stored")
 }
 
 // ---------- C15: hop limit ----------
@@ -213,7 +232,13 @@ func harnessC15HopLimit() {
 	}
 	from := path[0]
 	f.sender.(*fSender).peers = []identity.AgentID{from, fID(1)}
-	ok := f.HandleRouteAdvertise(from, origin, "", 1, []protocol.Route{fRoute(1)}, &protocol.EncryptedData{Data: protocol.EncodePath(path)}, append([]identity.AgentID{}, path...))
+	// live flood: every agent on the path is in the seen-by list; replay of a stored
+	// route to a new peer (SendFullTable): full path, seen-by = the replaying agent only
+	seenBy := append([]identity.AgentID{}, path...)
+	if verif_nondet_bool() {
+		seenBy = []identity.AgentID{from}
+	}
+	ok := f.HandleRouteAdvertise(from, origin, "", 1, []protocol.Route{fRoute(1)}, &protocol.EncryptedData{Data: protocol.EncodePath(path)}, seenBy)
 	verif_reach("C15/hop-limit")
 	if n > maxHops {
 		verif_assert(rm.Table().TotalRoutes() == 0, "C15/stored-beyond-hop-limit")
@@ -280,4 +305,36 @@ func harnessC11Base() {
 		verif_assert(len(adv.Path) == 1 && adv.Path[0] == fID(fLocal), "C11/origin-path-is-not-itself")
 		verif_assert(fHas(adv.SeenBy, fID(fLocal)), "C11/origin-not-in-its-own-seen-by")
 	}
+}
+
+// C14 without replays: two genuine announcements of one origin reach the agent
+// over the same or over different neighbours; after the newer one every stored
+// copy of the origin's route carries the new sequence (none is left to go stale).
+func harnessC14TwoPaths() {
+	f, _, rm := fNew(0, []identity.AgentID{fID(0), fID(1)})
+	r, o := fID(0), fID(1)
+	nw := fRoute(0)
+	s1, s2 := verif_nondet_u64(), verif_nondet_u64()
+	verif_assume(s2 > s1)
+	deliver := func(seq uint64, viaRelay bool) bool {
+		if viaRelay {
+			w := nw
+			w.Metric++
+			return f.HandleRouteAdvertise(r, o, "", seq, []protocol.Route{w}, &protocol.EncryptedData{Data: protocol.EncodePath([]identity.AgentID{r, o})}, []identity.AgentID{o, r})
+		}
+		return f.HandleRouteAdvertise(o, o, "", seq, []protocol.Route{nw}, &protocol.EncryptedData{Data: protocol.EncodePath([]identity.AgentID{o})}, []identity.AgentID{o})
+	}
+	ok1 := deliver(s1, verif_nondet_bool())
+	verif_set_now(1000)
+	ok2 := deliver(s2, verif_nondet_bool())
+	verif_reach("C14/two-paths")
+	verif_assert(ok1 && ok2, "C14/genuine-announcement-ignored")
+	n := 0
+	for _, rt := range rm.Table().GetAllRoutes() {
+		if rt.OriginAgent == o {
+			n++
+			verif_assert(rt.Sequence == s2, "C14/stale-copy-of-the-origin-route-kept")
+		}
+	}
+	verif_assert(n >= 1, "C14/genuine-announcement-does-not-renew-route")
 }
